@@ -1,14 +1,20 @@
 import Driver.Common
 import GM.Model.Blocks
+import GM.Spec.QuoteHyp
 namespace Driver
 open GM
 
 /-- `blocks parse <hex source>` → canonical one-line dump of the block tree;
-    `blocks lines <hex source>` → `ok` when every line segment of the model's tree is in range and increasing -/
+    `blocks lines <hex source>` → `ok` when every line segment of the model's tree is in range and increasing;
+    `blocks quotesimhyp <hex source>` → `ok` when the hypotheses of GM.Props.C08.quote_prefix_simulation_partial hold
+    for the source (`n-a` outside its class);
+    `blocks indep <hexA> <hexH> <hexB>` → `ok` / `n-a` / `fail:indep-tree …` (C09 first half on block trees) -/
 def handleBlocks : List String → String
   | ["parse", v] => hx v fun b => GM.Blocks.dump b
   | ["lines", v] => hx v fun b => GM.Blocks.checkLines b
   | ["quotesim", v] => hx v fun b => GM.Blocks.quoteSim b
+  | ["quotesimhyp", v] => hx v fun b => GM.Blocks.quoteHypStr b
+  | ["indep", a, h, b] => hx a fun a => hx h fun h => hx b fun b => GM.Blocks.indepCheck a h b
   | _ => bad
 
 end Driver
